@@ -204,6 +204,7 @@ pub fn c12() -> PropDef {
         adjust: no_adjust,
         assumptions: COMMON_ASSUMPTIONS,
         tiny: no_tiny,
+        long: None,
     }
 }
 
@@ -524,6 +525,7 @@ pub fn c15() -> PropDef {
         adjust: adjust_c15,
         assumptions: COMMON_ASSUMPTIONS,
         tiny: no_tiny,
+        long: None,
     }
 }
 
